@@ -71,6 +71,9 @@ class PlaceRef(object):
         self.variant = variant
 
 
+SCRIPT_DEST = PlaceRef(None, 0, None)  # sentinel: the callee's return value is wanted (by a ScriptFrame)
+
+
 class Violation(object):
     def __init__(self, code, model_inputs, trace, span=None, kind="check", detail=None):
         self.code = code
@@ -1003,13 +1006,24 @@ class Interp(object):
         """control returns to the frame now on top (a Frame or a CatchFrame)"""
         top = st.frames[-1]
         if isinstance(top, ScriptFrame):
+            if ret_blob:
+                v = ret_blob[0][2]
+                if not isinstance(v, int):
+                    v = self.concretize(st, v)
+                if v != 0:
+                    top.acc = 1
+                    if top.on_err is not None:
+                        st.write_scalar(top.on_err[0], top.on_err[1], 1, 1)
+                    if top.final_from_acc:
+                        top.pending = []  # as in core: members after a failure are not formatted
             if top.pending:
                 fnid, args = top.pending.pop(0)
-                self.call_fn(st, fnid, args, None, None)
+                self.call_fn(st, fnid, args, SCRIPT_DEST, None)
                 return
             st.frames.pop()
-            if top.dest is not None and top.final is not None:
-                self.write_place_blob(st, top.dest, top.final)
+            final = [(0, 1, top.acc)] if top.final_from_acc else top.final
+            if top.dest is not None and final is not None:
+                self.write_place_blob(st, top.dest, final)
             if top.target is None:
                 raise PathEnd("engine-error", "script summary without target")
             self.goto(st, top.target)
@@ -1040,7 +1054,8 @@ class Interp(object):
     def start_panic(self, st, what="panic"):
         """a panic starts at the current terminator of the top frame"""
         st.panic_count += 1
-        st.exc = [(0, 8, self.new_payload(st)), (8, 8, VT(PAYLOAD_VT))]
+        # exceptions in flight form a stack: a destructor running during an unwind may raise and catch its own
+        st.exc = (st.exc or ()) + ([(0, 8, self.new_payload(st)), (8, 8, VT(PAYLOAD_VT))],)
         st.unwinding = True
         st.trace.append(("panic", what))
         self.unwind(st)
@@ -1122,28 +1137,28 @@ class Interp(object):
 
     def ret_scalar(self, st, dest, target, val, size):
         """helper for summaries: write a scalar result and continue"""
-        if dest is not None and size:
+        if dest is not None and dest is not SCRIPT_DEST and size:
             st.write_scalar(dest.alloc, dest.off, size, val)
         if target is None:
             if st.frames and not isinstance(st.frames[-1], Frame):
-                self.finish_call(st, None, None, None)
+                self.finish_call(st, None, None, [(0, size, val)] if size else None)
                 return
             raise PathEnd("engine-error", "summary returned into diverging call")
         self.goto(st, target)
 
     def ret_blob(self, st, dest, target, blob):
-        if dest is not None:
+        if dest is not None and dest is not SCRIPT_DEST:
             self.write_place_blob(st, dest, blob)
         if target is None:
             if st.frames and not isinstance(st.frames[-1], Frame):
-                self.finish_call(st, None, None, None)
+                self.finish_call(st, None, None, blob)
                 return
             raise PathEnd("engine-error", "summary returned into diverging call")
         self.goto(st, target)
 
-    def run_script(self, st, calls, final, dest, target):
+    def run_script(self, st, calls, final, dest, target, on_err=None, final_from_acc=False):
         """summary helper: perform calls [(fnid, args)] in order, then return `final` (a blob) to dest"""
-        st.frames.append(ScriptFrame(list(calls), final, dest, target))
+        st.frames.append(ScriptFrame(list(calls), final, dest, target, on_err, final_from_acc))
         self.finish_call(st, None, None, None)
 
     # =====================================================================================
